@@ -97,7 +97,8 @@ def add_message(w, ci, t=None, name='sync', sent=True, args=(), target_id=1):
     """target_id other than 1 names an object that was never created: the message stays on an unresolved object"""
     from core import wl
     n = len(w.msgs)
-    m = wl.Message(float(n) if t is None else t, wl.UnresolvedObject(target_id, 'wl_display' if target_id == 1 else None), sent, name, args)
+    # default clock: NOT monotone (logs of several processes, wrap-around): order of arrival is what counts, gaps stay below one second
+    m = wl.Message(((n * 7) % 5) * 0.25 if t is None else t, wl.UnresolvedObject(target_id, 'wl_display' if target_id == 1 else None), sent, name, args)
     m.tag = n
     w.msgs.append((m, ci))
     w.manager.message('conn%d' % ci, m)
